@@ -104,6 +104,30 @@ def s02_3_type_binding(ctx, P):
         ctx.check('%s:S02-3:typeset:%s' % (P, path), 'R-table',
                   'accepted signature types of %s equal the RFC set %s' % (short, sorted(hex(x) for x in spec['types'])),
                   acc == spec['types'], function=b.path, table=sorted(acc) if acc is not None else None)
+    sign_side_type_sets(ctx, P)
+
+
+SIGN_TYPE_SETS = {CFG + 'SignatureConfig::sign_key': {'Key', 'KeyRevocation'}}
+
+
+def sign_side_type_sets(ctx, P):
+    """Sign-side twin of S02-3: a signing function that frames ONE key (sign_key) admits exactly the signature types whose RFC 9580
+    §5.2.4 digest frames one key (direct key 0x1F, key revocation 0x20)."""
+    for path, want in SIGN_TYPE_SETS.items():
+        b = ctx.body(path)
+        if b is None:
+            continue
+        got = set()
+        for i, t in b.calls(r'contains$'):
+            for a in t['args']:
+                for tok in b.operand_origins(a):
+                    m = re.match(r'agg:.*SignatureType::(\w+)$', tok)
+                    if m:
+                        got.add(m.group(1))
+        sinks = call_blocks(b, r'SigningKey::sign$')
+        gs = guard_switches(b, sinks, [r'field:SignatureConfig\.typ$']) if sinks else []
+        ctx.check('%s:S02-3:sign-typeset:%s' % (P, path.split('::')[-1]), 'R-table', '%s admits exactly the signature types %s (rejecting, before signing)' % (path.split('::')[-1], sorted(want)),
+                  got == want and bool(gs), function=path, table=sorted(got))
 
 
 def accepted_types(b, sinks):
